@@ -239,6 +239,43 @@ SEEDS = {
         needs="a hard crash between the rename and the close, with a final write smaller than the file buffer",
         detected_by={"C27": "later_autosave_crash: completed autosave: the advertised file holds the new snapshot / is a complete snapshot"},
     ),
+    "C04b": dict(
+        property="C04",
+        change="get_lindblad_operators('dephasing') returns [] early when dephasing_rate == 0, in front of the hyperfine-dephasing guard",
+        needs="a noise model with hyperfine_dephasing_rate != 0 and dephasing_rate == 0: the unsupported noise is silently left out",
+        detected_by={"C04": "noise_rejects_ising (added to C04): hyperfine dephasing != 0 raises NotImplementedError, = 0 is accepted", "C24": "errors_ising: same clause"},
+        strengthened="C04 MISSED it at first (its text deferred noise rejection to C24, which caught it): the error-path cases of C24 are now part of C04. A second clause of C24 that also fired (the exact NUMBER of operators per channel) demanded more than the property and was removed",
+    ),
+    "C15b": dict(
+        property="C15",
+        change="MPS.sample: `(p_false_neg > 0 or p_false_pos > 0) and dim == 2` - false negatives are no longer applied for three-level MPS",
+        needs="a qutrit MPS sampled with p_false_neg > 0 and p_false_pos == 0",
+        detected_by={"C15": "mps_sample_n2_d3_D1_exhaustive: MPS(dim=3): readout errors are applied iff a rate is positive"},
+    ),
+    "C16b": dict(
+        property="C16",
+        change="RydbergLindbladian takes the real (phase-free) branch whenever all sin(phi) vanish, i.e. also for phi = pi",
+        needs="a noisy step with every phase a multiple of pi and at least one odd multiple",
+        detected_by={"C16": "dm_n1_steps2_ops1: exponentiated map = dt*1e-3*GKSL generator", "C06": "lindblad_n1_ops2_phase_any"},
+    ),
+    "C20b": dict(
+        property="C20",
+        change="PCHIP1D._interval_index drops the lower clamp: queries left of x[0] index interval -1 (the last cubic)",
+        needs="a query point strictly left of the first knot",
+        detected_by={"C20": "query_n2_uniform: P(xq) uses the polynomial of the interval containing xq (end pieces outside)"},
+    ),
+    "C21b": dict(
+        property="C21",
+        change="the merge of grid points into pinned times uses a bisect lookup that only inspects the first pinned time at or after the grid point",
+        needs="a multiple of dt that rounds to just above a pinned time (e.g. duration 187, dt 1.1: 187.00000000000003 is kept next to 187.0)",
+        detected_by={"C21": "grid_evals2_idx1_mixed: times #k,#k+1 strictly increasing, more than 5e-10*duration apart", "C14": "requested_times_on_grid_evals2_mixed"},
+    ),
+    "C30b": dict(
+        property="C30",
+        change="the safe-secant substitution of the PCHIP harmonic mean (the repair of the NaN-gradient defect) is narrowed to exactly-zero secants: opposite secants that cancel (w_l/d_l + w_r/d_r = 0) divide by zero again",
+        needs="an interior sample whose two neighbours are equal to each other and different from it (symmetric triangular pulse)",
+        detected_by={"C30": "pchip_gradient_finite_knots3: d(sum of interpolated values)/d(samples) is finite"},
+    ),
     "C22b": dict(
         property="C22",
         change="_limit_endpoint tests `d_end * s_l < 0` instead of comparing signs: a flat end secant no longer zeroes the end slope (the original defect D1 in another guise, both ends)",
